@@ -621,7 +621,10 @@ REGISTRY = dict(
     "element counts; ids_wellformed under explicit bounds, with ids_wellformed_bound_sharp showing the 61 440th "
     "object gets AO_10000; ids_not_reserved: ATU_00000000 is never generated; ids_disjoint_from_common: counters "
     ">= 0x1001) and the 40-byte CHNA row (chna_entry_roundtrip: both reference styles, AC_ padding, absent pack). "
-    "C08_partial is their conjunction. NOT proved, only searched: the XML element layer (declarative "
+    "Regenerated tables (every ElementParser's property list for both versions, extracted from the real "
+    "MainElementHandler on each run) carry the decide obligations handlers_wellformed (handler keys and constructor "
+    "arguments pairwise distinct, elided default = constructor default) and common_ids_in_reserved_range. "
+    "C08_partial is the conjunction of the leaf claims. NOT proved, only searched: the XML element layer (declarative "
     "Attribute/AttrElement/ListElement combinators and ~40 hand-written handlers), five-decimal float printing, lxml, "
     "reference resolution, populate_chna_chunk/load_chna_chunk — covered by generated documents over every element "
     "class and optional attribute for BS.2076-1 and -2 run through the real write/read pipeline (equivalence, byte "
